@@ -117,6 +117,34 @@ Proof.
   - intros i a [].
 Qed.
 
+(* ---- the shared cache of outer records ----------------------------------------------------------- *)
+(* F-C13-4: two goroutines of the inner query, one of which does not find the outer field in the
+   cache: its Add races with the other's Get *)
+Theorem outer_cache_race : forall cap pre post misses len n i j k kj,
+  i <> j -> i < n -> j < n -> In k (range len n i) -> In kj (range len n j) -> misses k = true ->
+  race cap (tm_exec pre post (outer_cache_body misses) (fun _ => []) (fun _ => false) len n).
+Proof.
+  intros cap pre post misses len n i j k kj Hne Hi Hj Hk Hkj Hm.
+  unfold tm_exec, tm_workers.
+  apply (fj_race pre (tm_post ++ post) _ cap i j (mkAcc Wr (Var "outer.cache") []) (mkAcc Rd (Var "outer.cache") []) Hne).
+  - rewrite nth_range_workers by exact Hi. apply in_or_app. left. apply in_flat_map.
+    exists k. split; [exact Hk|]. unfold tm_iter, outer_cache_body. rewrite Hm. cbn. auto.
+  - rewrite nth_range_workers by exact Hj. apply in_or_app. left. apply in_flat_map.
+    exists kj. split; [exact Hkj|]. unfold tm_iter, outer_cache_body. cbn. auto.
+  - reflexivity.
+Qed.
+
+(* once the cache is warm (nobody misses) the goroutines only read it *)
+Theorem outer_cache_warm_drf : forall cap pre post len n, 1 <= n ->
+  race_free cap (tm_exec pre post (outer_cache_body (fun _ => false)) (fun _ => []) (fun _ => false) len n).
+Proof.
+  intros cap pre post len n Hn. apply tm_drf; auto.
+  - intros k1 k2 a1 a2 _ [<-|[]] [<-|[]]. apply reads_no_conflict; reflexivity.
+  - apply no_epilogue_local.
+  - intros k a [<-|[]]. unfold avoids_tm, tm_err. cbn. repeat split; discriminate.
+  - intros i a [].
+Qed.
+
 (* ---- loaders ------------------------------------------------------------------------------------ *)
 Lemma consumer_accs : forall m a, In (SAcc a) (consumer false m) ->
   a_loc a = Var "recordSet" \/ a = mkAcc Rd (Var "err") [].
